@@ -27,9 +27,14 @@ Definition lt_comments (l : ltext) : list text := otrivia_comments (l_trivia l).
 Definition opt_comments {A} (f : A -> list text) (x : option A) : list text :=
   match x with Some a => f a | None => [] end.
 
-(* The items of a string carry no trivia (parser: `located(..)`, never `ws(..)`); the formatter renders an item with
-   Display, i.e. whatever trivia it had would become part of the string's text, not a comment of the program. *)
-Definition istring_comments (s : istring) : list text := lt_comments (is_lquote s).
+(* The text items of a string carry no trivia (parser: `located(..)`); the formatter renders them with Display.  A path
+   inside `{ }` may be preceded by trivia (ws(identifier_path)): `wrapper`-like flag `interp` selects whether it counts. *)
+Definition istring_comments_with (interp : bool) (s : istring) : list text :=
+  lt_comments (is_lquote s) ++
+  flat_map (fun i => match i with IString _ => [] | IIdentifierPath p => if interp then lt_comments p else [] end) (is_items s).
+(* every comment of the string (the formatter emits the trivia in front of a path since the repair of the interpolation
+   defect; proofs/FormatTokensProofs.emits_istring needs Gen.FmtRules.emits_interpolation_trivia = true) *)
+Definition istring_comments (s : istring) : list text := istring_comments_with true s.
 
 Fixpoint expr_comments (e : expr) : list text :=
   match e with
@@ -281,7 +286,7 @@ Fixpoint rechunk_loop2 (o : options) (cs : list chunk) (r : rstate2) : rstate2 :
   | [] => r
   | c :: rest =>
       let r0 := mkR2 (set_indent (q_st r) (c_indent c)) (q_cur r) (q_groups r) in
-      rechunk_loop2 o rest (fold_left (rechunk_piece2 o c (next_is_nl rest) (is_last rest)) (split_inclusive (c_str c)) r0)
+      rechunk_loop2 o rest (fold_left (rechunk_piece2 o c (next_is_nl rest) (is_last rest)) (chunk_pieces c) r0)
   end.
 
 Definition nlc : chunk := mkChunk None 0 [NL].
